@@ -1,4 +1,6 @@
 SPECIFICATION Spec
+CONSTANT WithUnkillable = FALSE
+CONSTANT Fix_BoundFinalWait = TRUE
 CONSTANT WithLinger = TRUE
 CONSTANT Fix_HardExit = TRUE
 CONSTANT KillOnTimeout = TRUE
